@@ -1,10 +1,16 @@
-(** C05 - Relation targets (level: partial, see DESIGN.md).  Proved on the model: what
-    Relations.Get reports is the target stored with the entity's table; it is part of
-    [ent_cells], which the move, creation and removal theorems of C01/C06 preserve for all
-    other entities; a dead target is refused by every target-taking entry point.  The
-    remaining clauses are decided by the correspondence run. *)
+(** C05 - Relation targets.  Proved on the model, for worlds with any registry (relation
+    and ordinary component types), any number of relation tables, retired tables and
+    re-used tables: the single-entity operations refine an abstract store
+    entity -> (mask, target, values) ([C05_refinement_step], [C05_every_history]); in
+    particular Relations.Get returns the target last assigned by creation with target,
+    Relations.Set or an exchange with relation argument, an exchange that keeps the
+    relation component keeps the target, one that removes it resets the target to zero,
+    and no operation on one entity changes the target of another.  A dead target is
+    refused by every target-taking entry point.  Batch operations and relation FILTERS
+    are decided by the correspondence run. *)
 From Arche Require Import Model.Base Model.Pool Model.World Model.Ops
-  Proofs.PoolInv Proofs.Store Proofs.Misc Proofs.Atomic.
+  Proofs.PoolInv Proofs.Store Proofs.Misc Proofs.Atomic Proofs.WorldInv
+  Proofs.RelGraph Proofs.RelWorld Proofs.RelRefine.
 
 Theorem C05_get_reports_table_target : forall w e id tid row t nd,
   ent_table w e = Some (tid, row, t, nd) -> check_relation w tid id = true ->
@@ -35,4 +41,82 @@ Theorem C05_target_frame_move : forall w live e src row dst keep st dt sn dn,
   forall e', e' ∈ live -> e' <> e -> ent_cells (move_entity w e src row dst keep) e' = ent_cells w e'.
 Proof. intros. by eapply move_entity_ok. Qed.
 
+
+(** Exchange (Add / Remove / Exchange / Relations.Exchange) on a world with relation
+    tables: mask, target, relation and values of the entity are what the call dictates;
+    every other entity keeps mask, target, relation and values. *)
+Theorem C05_exchange_with_relation : forall w live e add rem rel w' x,
+  world_okr w live -> e ∈ live -> Forall (fun id => id < length (w_reg w)) add ->
+  exchange_nn w e add rem rel = Some (w', Some x) ->
+  world_okr w' live /\ w_pool w' = w_pool w /\ length (w_index w') = length (w_index w) /\ w_reg w' = w_reg w /\
+  (forall e', e' ∈ live -> e' <> e ->
+     ent_mask w' e' = ent_mask w e' /\ ent_target w' e' = ent_target w e' /\ ent_rel w' e' = ent_rel w e' /\
+     forall id, comp_val w' e' id = comp_val w e' id) /\
+  exists oldmask newmask oldtarget newtarget newrel,
+    ent_mask w e = Some oldmask /\ ent_target w e = Some oldtarget /\
+    exchange_mask oldmask add rem = Some newmask /\
+    exchange_target w oldmask newmask oldtarget rem rel = Some newtarget /\
+    ent_mask w' e = Some newmask /\ newmask <> oldmask /\
+    ent_rel w' e = Some newrel /\ relP w newmask newrel /\
+    ent_target w' e = Some (match newrel with Some _ => newtarget | None => ezero end) /\
+    forall id, id < w_tb w -> bit newmask id = true ->
+      comp_val w' e id = if bit oldmask id then comp_val w e id else Some 0%Z.
+Proof. exact exchange_rok. Qed.
+
+(** Relations.Set: the target becomes the given one; mask, relation and every value stay. *)
+Theorem C05_set_relation : forall w live e rid target w' evs,
+  world_okr w live -> e ∈ live ->
+  op_set_relation w e rid target = (w', Ok VUnit, evs) ->
+  world_okr w' live /\ w_pool w' = w_pool w /\ length (w_index w') = length (w_index w) /\ w_reg w' = w_reg w /\
+  (forall e', e' ∈ live -> e' <> e ->
+     ent_mask w' e' = ent_mask w e' /\ ent_target w' e' = ent_target w e' /\ ent_rel w' e' = ent_rel w e' /\
+     forall id, comp_val w' e' id = comp_val w e' id) /\
+  ent_rel w e = Some (Some rid) /\ ent_rel w' e = Some (Some rid) /\ ent_mask w' e = ent_mask w e /\
+  ent_target w' e = Some target /\ forall id, comp_val w' e id = comp_val w e id.
+Proof. exact set_relation_rok. Qed.
+
+(** Creation with a target. *)
+Theorem C05_new_with_target : forall w live issued rid target ids w' e evs,
+  world_okr2 w live issued -> Forall (fun id => id < length (w_reg w)) ids ->
+  op_new_target w rid target ids [] = (w', Ok (VEnt e), evs) ->
+  e ∉ issued /\ world_okr2 w' (e :: live) (e :: issued) /\ w_reg w' = w_reg w /\
+  (forall e', e' ∈ live -> ent_mask w' e' = ent_mask w e' /\ ent_target w' e' = ent_target w e' /\
+      ent_rel w' e' = ent_rel w e' /\ forall id, comp_val w' e' id = comp_val w e' id) /\
+  exists mask, exmask_add 0 ids = Some mask /\ ent_mask w' e = Some mask /\ ent_rel w' e = Some (Some rid) /\
+    ent_target w' e = Some target /\
+    forall id, id < w_tb w -> bit mask id = true -> comp_val w' e id = Some 0%Z.
+Proof. exact new_entity_target_rok. Qed.
+
+(** Refinement: one step, every history from a new world, and the read accessors. *)
+Theorem C05_refinement_step : forall w A o,
+  R w A -> op_pre A o -> R (fst (fst (step w o))) (astep A o (snd (fst (step w o)))).
+Proof. exact rel_step. Qed.
+
+Theorem C05_every_history : forall capinc relcapinc tb ops,
+  0 < capinc -> pre_run (world_init capinc relcapinc tb) a_init ops ->
+  R (run (world_init capinc relcapinc tb) ops) (snd (arun (world_init capinc relcapinc tb) a_init ops)).
+Proof. exact rel_reachable. Qed.
+
+Theorem C05_reads_agree : forall w A e,
+  R w A -> e ∈ as_issued A ->
+  (forall w' m evs, step w (OMask e) = (w', Ok (VMask m), evs) ->
+     exists a, assoc_get e (as_ents A) = Some a /\ m = a_mask a) /\
+  (forall id w' b evs, step w (OHas e id) = (w', Ok (VBool b), evs) ->
+     exists a, assoc_get e (as_ents A) = Some a /\ b = bit (a_mask a) id) /\
+  (forall id w' t evs, step w (ORelGet e id) = (w', Ok (VEnt t), evs) ->
+     exists a, assoc_get e (as_ents A) = Some a /\ t = a_target a /\ arel (as_reg A) (a_mask a) = Some id) /\
+  (forall id w' o evs, id < w_tb w -> step w (OGet e id) = (w', Ok (VOptZ o), evs) ->
+     exists a, assoc_get e (as_ents A) = Some a /\ o = if bit (a_mask a) id then Some (aval a id) else None) /\
+  (forall w' b evs, step w (OAlive e) = (w', Ok (VBool b), evs) -> b = bool_decide (e ∈ as_live A)).
+Proof. exact rel_reads. Qed.
+
+(** The hypotheses are satisfiable and the theorem says something: see
+    [RelRefine.demo_pre], [demo_result], [demo_refines]. *)
+Example C05_nonvacuous : R (run (world_init 4 4 64) demo_ops) (snd (arun (world_init 4 4 64) a_init demo_ops)).
+Proof. exact demo_refines. Qed.
+
 Print Assumptions C05_dead_target_refused.
+Print Assumptions C05_exchange_with_relation.
+Print Assumptions C05_refinement_step.
+Print Assumptions C05_every_history.
+Print Assumptions C05_reads_agree.
